@@ -103,6 +103,7 @@ AlphaAll == AlphaOf([Query |-> {"o", "on", "lo", "lnn", "ll", "p", "lp", "u", "l
                      Mutation |-> {"m1", "m2", "m3", "ml"}])
 \* merged sub-selections differing per runtime type (lists of an abstract type, type-conditioned fragments)
 AlphaMerge == AlphaOf([Query |-> {"lp"}, P |-> {"o"}, A |-> {"o"}, B |-> {"o"}, T |-> {"s", "d"}])
+AlphaMergeT == AlphaOf([Query |-> {"lp"}, P |-> {"o", "__typename"}, A |-> {"o"}, T |-> {"s", "d"}])
 AlphaMerge2 == AlphaOf([Query |-> {"lo", "o"}, T |-> {"o", "s", "d"}])
 AlphaAllF == [AlphaAll EXCEPT !.Query = @ \cup {"gd", "gd2"}]
 ArgOptsStdF == [x \in DOMAIN ArgOptsStd \cup {"gd", "gd2"} |->
